@@ -35,7 +35,13 @@ func staleSurfacesWorld() []surface {
 		{"Unsafe.Remove", func(s *Sim, h ecs.Entity) { s.W.Unsafe().Remove(h, s.ids[2]) }},
 		{"Unsafe.Exchange", func(s *Sim, h ecs.Entity) { s.W.Unsafe().Exchange(h, []ecs.ID{s.ids[3]}, []ecs.ID{s.ids[2]}) }},
 		{"Unsafe.IDs", func(s *Sim, h ecs.Entity) { s.W.Unsafe().IDs(h) }},
-		{"Event.Emit", nil},
+		{"Event.Emit", func(s *Sim, h ecs.Entity) {
+			// Emit checks the entity only if somebody listens: an observer of an event type of its own
+			o := ecs.Observe(s.spareEv).Do(func(ecs.Entity) {})
+			o.Register(s.W)
+			defer o.Unregister(s.W)
+			s.W.Event(s.spareEv).Emit(h)
+		}},
 	}
 }
 
@@ -182,7 +188,8 @@ func (s *Sim) opMisuse(op *Op) {
 			sf = staleSurfacesWorld()
 		}
 		su := sf[abs(int(op.X))%len(sf)]
-		if su.call == nil {
+		if su.call == nil || (su.name == "Event.Emit" && kind == "zero") {
+			// (an event without entity is emitted with the zero entity)
 			s.skip(op)
 			return
 		}
@@ -806,7 +813,7 @@ func (s *Sim) opMatrix(op *Op) {
 			all = append(all, exchangerSurfaces(i)...)
 		}
 		for _, su := range all {
-			if su.call == nil {
+			if su.call == nil || (su.name == "Event.Emit" && kname == "zero") {
 				continue
 			}
 			s.expectPanic(su.name, kname, func() { su.call(s, h) })
